@@ -40,6 +40,7 @@ fn main() {
         Some("nodes-search") => nodes::nodes_search(&v),
         Some("lexer-search") => lexer::search(&v),
         Some("imm") => imm::run(args.get(1).map(String::as_str).unwrap_or(""), &v),
+        Some("tags-search") => memloc::tags_search(),
         Some("memloc") => memloc::run(args.get(1).map(String::as_str).unwrap_or(""), &v),
         Some("regs") => regs::run(args.get(1).map(String::as_str).unwrap_or(""), &v),
         _ => {
